@@ -146,7 +146,7 @@ class Gen:
     def filtered(self):
         e = self.primary() + self.filters()
         if self.flags.get("ternary_expressions") and self.r.chance(20):
-            e += f" if {self.condition()} else {self.primary()}"
+            e += f" if {self.condition()} else {self.primary()}{self.filters(2)}"
             if self.r.chance(30):
                 e += " || " + self.r.choice(["upcase", "append: 'z'", "default: 'q'"])
         return e
